@@ -8,6 +8,7 @@ import Driver.TokDrv
 import Driver.FmtDrv
 import Driver.ValDrv
 import Driver.SelDrv
+import Driver.TmoDrv
 open Cgreen.Drv
 
 /-- Read all of stdin as lines. -/
@@ -40,6 +41,9 @@ def main (args : List String) : IO UInt32 := do
     for b in blocks lines do
       for l in Cgreen.Drv.VC.runLines (stp.toNat?.getD 100) b do out.putStrLn l
       out.putStrLn "---"
+    return 0
+  | ["timeout"] =>
+    for l in lines do out.putStrLn (Cgreen.Drv.TM.evalLine l)
     return 0
   | ["select"] =>
     for b in blocks lines do
